@@ -66,6 +66,8 @@ def comp_blocks(comp):
         'maintask': [('m1', 'maintask', {}), ('s1', 'sync', {})],
         'fsm': [('fsm', 'fsm', {}), ('s1', 'sync', {})],
         'outfunc': [('of', 'outfunc', {}), ('s1', 'sync', {})],
+        # a function without arguments and an EMPTY stop_data mapping (still one final call)
+        'outfunc0': [('of0', 'outfunc0', {}), ('s1', 'sync', {})],
         'outasync': [('oa', 'outasync', {'mode': 'wait'}), ('s1', 'sync', {}), ('oc', 'outasync', {'mode': 'cancel'})],
         'outasync-start': [('os', 'outasync', {'mode': 'start'}), ('s1', 'sync', {})],
         # the results of the start-mode runs are sent to 's1' (whose handler may be the fault site)
@@ -82,7 +84,7 @@ def comp_blocks(comp):
     }[comp]
 
 
-COMPS = ['sync2', 'async-stop', 'async-stop-timeout', 'async-stop-timeout2', 'maintask', 'fsm', 'outfunc', 'outasync',
+COMPS = ['outfunc0', 'sync2', 'async-stop', 'async-stop-timeout', 'async-stop-timeout2', 'maintask', 'fsm', 'outfunc', 'outasync',
          'outasync-start', 'outasync-start-chain', 'outasync-chain', 'repeat', 'slow-init', 'valuepoll', 'cblock', 'chain', 'mix']
 PROBE_KINDS = {'sync', 'astop', 'maintask', 'ainit'}
 
@@ -283,6 +285,9 @@ def run_case(cfg, acc):
               elif kind == 'outfunc':
                   blk = edzed.OutputFunc(name, func=ofunc(name, fphase == 'output-function'),
                                          on_error=None, stop_data={'value': 'STOP'})
+              elif kind == 'outfunc0':
+                  blk = edzed.OutputFunc(name, func=lambda _n=name: flog.setdefault(_n, []).append('CALL'),
+                                         f_args=(), on_error=None, stop_data={})
               elif kind == 'outchain':
                   nxt = params['next']
                   blk = edzed.OutputFunc(
@@ -647,6 +652,11 @@ def judge(cfg, specs, log, flog, res):
                 viol.append(('stop_data-twice', f"{tag}: {name} calls {calls}"))
             if res.get('init_ok') and res.get('finished') and sd not in calls:
                 viol.append(('stop_data-not-delivered', f"{tag}: {name} calls {calls}"))
+        if kind == 'outfunc0':
+            calls = flog.get(name, [])
+            if res.get('init_ok') and res.get('finished') and len(calls) != 1:
+                viol.append(('stop_data-not-delivered', f"{tag}: {name} (empty stop_data) was called {len(calls)} "
+                             f"times, expected exactly one call - the final one"))
         if kind == 'outasync':
             calls = flog.get(name, [])
             begins = [v for (w, v) in calls if w == 'begin']
